@@ -93,38 +93,59 @@ def r13_2(run):
     run.ob('R13.2', gs, gs.node, 'get_info_single returns the value stored under the requested key', ok, slot='single-key', message='get_info_single extracts %s' % [src(ch.node.body) for ch in lam])
 
 
+def pk_roles(pk):
+    """local names of parse_keywords by role: result dict, (key, value) pair, line loop variable,
+    the "this line starts a new key" flag, the split parts"""
+    rn = returned_names(pk)
+    if len(rn) != 1:
+        raise Undecided('parse_keywords: result name')
+    R = rn[0]
+    kv = [n for n in walk_unit(pk) if isinstance(n, ast.Assign) and isinstance(n.targets[0], ast.Tuple) and len(n.targets[0].elts) == 2
+          and isinstance(n.value, ast.Call) and callee_attr(n.value) in ('split', 'partition') and all(isinstance(e, ast.Name) for e in n.targets[0].elts)]
+    if not kv:
+        raise Undecided('parse_keywords: (key, value) = line.split(...) not found')
+    K, V = kv[0].targets[0].elts[0].id, kv[0].targets[0].elts[1].id
+    loops = [n for n in walk_unit(pk) if isinstance(n, ast.For) and isinstance(n.target, ast.Name) and 'split' in src(n.iter)]
+    L = loops[0].target.id if loops else None
+    fk = names_defined_by(pk, lambda v: isinstance(v, ast.BoolOp) and any(isinstance(c, ast.Compare) and const(c.left) == '=' for c in ast.walk(v)))
+    SP = names_defined_by(pk, lambda v: isinstance(v, ast.Call) and callee_attr(v) == 'split' and v.args and const(v.args[0]) == '=' and dotted(receiver(v)) == L)
+    return dict(R=R, K=K, V=V, L=L, FK=fk[0] if fk else None, SP=SP[0] if SP else None, kv=kv)
+
+
 def r13_3(run):
     pk = run.idx.unit(MOD + '.parse_keywords')
     g = cfg_of(pk)
     defs = local_defs(pk)
+    ro = pk_roles(pk)
+    R, K, V, L, FK = ro['R'], ro['K'], ro['V'], ro['L'], ro['FK']
     # sentinel on the no-"=" leg, split remainder on the "=" leg
-    stores = [n for n in walk_unit(pk) if isinstance(n, ast.Assign) and isinstance(n.targets[0], ast.Subscript) and dotted(n.targets[0].value) == 'rtn']
+    stores = [n for n in walk_unit(pk) if isinstance(n, ast.Assign) and isinstance(n.targets[0], ast.Subscript) and dotted(n.targets[0].value) == R]
     run.floor('R13.3', 'stores into the result dict', len(stores), 5)
     sentinel = [s for s in stores if dotted(s.value) == 'DEFAULT_VALUE']
     run.ob('R13.3', pk, pk.node, 'a key without "=" is reported with the DEFAULT_VALUE sentinel', bool(sentinel), slot='sentinel-leg', message='no store of DEFAULT_VALUE')
     for s in sentinel:
         for n in g.nodes_containing(s):
-            gd = g.guarded_by(n, lambda t: dotted(t) == 'found_key')
+            gd = g.guarded_by(n, lambda t: dotted(t) == FK)
             run.ob('R13.3', pk, s, 'the sentinel is stored only for lines that are not key=value', any(lab == 'F' for _, lab in gd), slot='sentinel-guard',
                    message='DEFAULT_VALUE stored on a key=value line')
     # key/value come from one split with maxsplit 1
-    kv = [n for n in walk_unit(pk) if isinstance(n, ast.Assign) and isinstance(n.targets[0], ast.Tuple) and [dotted(e) for e in n.targets[0].elts] == ['key', 'value']]
+    kv = ro['kv']
     ok = bool(kv) and all(isinstance(a.value, ast.Call) and callee_attr(a.value) in ('split', 'partition') for a in kv)
     run.ob('R13.3', pk, pk.node, 'key and value come from one split of the line', ok, slot='kv-split', message='(key, value) assigned from %s' % [src(a.value) for a in kv])
     # the stored value is the (unquoted) remainder, distinct from the sentinel; '' stays ''
     vals = [s for s in stores if not (dotted(s.value) == 'DEFAULT_VALUE')]
-    okv = all(('value' in src(s.value)) for s in vals)
+    okv = all(any(isinstance(x, ast.Name) and x.id == V for x in ast.walk(s.value)) for s in vals)
     run.ob('R13.3', pk, pk.node, 'stored values derive from the text after "="', okv, slot='value-source', message='stores: %s' % [src(s.value) for s in vals])
-    for d in defs.get('value', []):
+    for d in defs.get(V, []):
         bad = len(d) > 1 and isinstance(d[1], ast.AST) and any(dotted(x) == 'DEFAULT_VALUE' for x in ast.walk(d[1])) and d[0] == 'expr'
         run.ob('R13.3', pk, d[1] if len(d) > 1 and isinstance(d[1], ast.AST) else pk.node, 'a parsed value is never replaced by the unset sentinel', not bad,
                slot='value-never-sentinel', message='parse_keywords turns a value into DEFAULT_VALUE: "set to the empty string" becomes indistinguishable from "unset"')
     # repeated keys accumulate in arrival order: [old, new] then append
     lists = [s for s in stores if isinstance(s.value, ast.List) and len(s.value.elts) == 2]
-    ok = bool(lists) and all(isinstance(s.value.elts[0], ast.Subscript) and dotted(s.value.elts[0].value) == 'rtn' and 'value' in src(s.value.elts[1]) for s in lists)
+    ok = bool(lists) and all(isinstance(s.value.elts[0], ast.Subscript) and dotted(s.value.elts[0].value) == R and any(isinstance(x, ast.Name) and x.id == V for x in ast.walk(s.value.elts[1])) for s in lists)
     run.ob('R13.3', pk, pk.node, 'a repeated key becomes [earlier, later]', ok, slot='repeat-pair', message='repeat handling: %s' % [src(s.value) for s in lists])
-    apps = [c for c in calls_in(pk) if callee_attr(c) == 'append' and isinstance(receiver(c), ast.Subscript) and dotted(receiver(c).value) == 'rtn']
-    ok = bool(apps) and all('value' in src(c.args[0]) for c in apps)
+    apps = [c for c in calls_in(pk) if callee_attr(c) == 'append' and isinstance(receiver(c), ast.Subscript) and dotted(receiver(c).value) == R]
+    ok = bool(apps) and all(any(isinstance(x, ast.Name) and x.id == V for x in ast.walk(c.args[0])) for c in apps)
     run.ob('R13.3', pk, pk.node, 'further repeats are appended (arrival order)', ok, slot='repeat-append', message='appends: %s' % [src(c) for c in apps])
     ins = [c for c in calls_in(pk) if callee_attr(c) == 'insert' and isinstance(receiver(c), ast.Subscript)]
     run.ob('R13.3', pk, pk.node, 'no front insertion of repeated values', not ins, slot='no-insert', message='repeated values inserted with %s' % [src(c) for c in ins])
@@ -133,8 +154,8 @@ def r13_3(run):
     after = [s for s in stores if loop and s.lineno > loop[0].end_lineno]
     run.ob('R13.3', pk, pk.node, 'the last pending key is flushed after the loop', len(after) >= 2, slot='final-flush', message='%d stores after the loop' % len(after))
     # multi-line values keep every line in order
-    cont = [n for n in walk_unit(pk) if isinstance(n, ast.Assign) and dotted(n.targets[0]) == 'value' and isinstance(n.value, ast.BinOp)]
-    ok = any(src(n.value).replace(' ', '') in ("value+'\\n'+line", "value+'\\n'+line") or (src(n.value).startswith('value +') and src(n.value).endswith('line')) for n in cont)
+    cont = [n for n in walk_unit(pk) if isinstance(n, ast.Assign) and dotted(n.targets[0]) == V and isinstance(n.value, ast.BinOp)]
+    ok = any(norm_src(n.value, {V: 'VALUE', L: 'LINE'}).replace(' ', '') == "VALUE+'\\n'+LINE" for n in cont)
     run.ob('R13.3', pk, pk.node, 'continuation lines are appended to the value in order', ok, slot='continuation', message='continuation: %s' % [src(n.value) for n in cont])
     # hints restrict, they never rename
     kh = [t for t in g.live if t.kind == 'test' and mentions(t.ast, 'key_hints')]
@@ -162,8 +183,9 @@ def r13_4(run):
                        message='%s splits on every "=": a value containing "=" is truncated / raises' % src(n))
     run.floor('R13.4', 'splits on "="', k, 3)
     pk = run.idx.unit(MOD + '.parse_keywords')
-    fk = sorted([n for n in walk_unit(pk) if isinstance(n, ast.Assign) and dotted(n.targets[0]) == 'found_key'], key=lambda n: n.lineno)
-    ok = bool(fk) and "sp[0]" in src(fk[0].value) and "'=' in line" in src(fk[0].value)
+    ro = pk_roles(pk)
+    fk = sorted([n for n in walk_unit(pk) if isinstance(n, ast.Assign) and dotted(n.targets[0]) == ro['FK']], key=lambda n: n.lineno)
+    ok = bool(fk) and ro['SP'] is not None and ("%s[0]" % ro['SP']) in src(fk[0].value) and ("'=' in %s" % ro['L']) in src(fk[0].value)
     run.ob('R13.4', pk, pk.node, 'the key test looks only at the text before the first "="', ok, slot='key-test', message='found_key = %s' % (src(fk[0].value) if fk else None))
 
 
@@ -214,19 +236,21 @@ def r13_6(run):
     # the OK terminator removal in _broadcast_response
     bc = U(run, '_broadcast_response')
     g = cfg_of(bc)
-    cut = [n for n in g.real_nodes() if n.kind == 'stmt' and isinstance(n.ast, ast.Assign) and assign_to(n.ast, 'resp') is not None and
-           any(lab == 'T' for _, lab in g.guarded_by(n, lambda t: isinstance(t, ast.Call) and dotted(t.func) == 'resp.endswith'))]
+    cbs = [c for c in calls_in(bc) if dotted(c.func) == 'self.defer.callback' and c.args and isinstance(c.args[0], ast.Name)]
+    RESP = cbs[0].args[0].id if cbs else 'resp'
+    cut = [n for n in g.real_nodes() if n.kind == 'stmt' and isinstance(n.ast, ast.Assign) and assign_to(n.ast, RESP) is not None and
+           any(lab == 'T' for _, lab in g.guarded_by(n, lambda t: isinstance(t, ast.Call) and dotted(t.func) == RESP + '.endswith'))]
     run.floor('R13.6', 'final-OK removal sites', len(cut), 1)
     for n in cut:
-        v = assign_to(n.ast, 'resp')
-        tests = [t for t, lab in g.guarded_by(n, lambda t: isinstance(t, ast.Call) and dotted(t.func) == 'resp.endswith') if lab == 'T']
+        v = assign_to(n.ast, RESP)
+        tests = [t for t, lab in g.guarded_by(n, lambda t: isinstance(t, ast.Call) and dotted(t.func) == RESP + '.endswith') if lab == 'T']
         suffix = const(tests[0].ast.args[0]) if tests and tests[0].ast.args else None
         ok = False
-        if isinstance(v, ast.Subscript) and dotted(v.value) == 'resp' and isinstance(v.slice, ast.Slice) and v.slice.lower is None:
+        if isinstance(v, ast.Subscript) and dotted(v.value) == RESP and isinstance(v.slice, ast.Slice) and v.slice.lower is None:
             up = v.slice.upper
             cv = const(up)
             ok = isinstance(suffix, str) and (cv == -len(suffix) or src(up) in ('-len(%r)' % suffix,))
-        elif isinstance(v, ast.Call) and dotted(v.func) == 'resp.removesuffix' and const(v.args[0]) == suffix:
+        elif isinstance(v, ast.Call) and dotted(v.func) == RESP + '.removesuffix' and const(v.args[0]) == suffix:
             ok = True
         run.ob('R13.6', bc, n.ast, 'the final OK line is cut off by exactly the length of the tested suffix', ok, slot='ok-removal',
                message='the reply terminator %r is removed with %s (not an exact cut of len(suffix) characters)' % (suffix, src(v)))
